@@ -64,7 +64,21 @@ type recStore struct {
 	calls []storeCall
 	// OnHead, if set, runs once right after the first Head() call was answered by the real store (before the
 	// caller sees the answer): something happens to the store between two of the server's calls
-	OnHead func()
+	OnHead  func()
+	OnHasAt func()
+}
+
+// OnHasAt works like OnHead for the first HasAt call.
+func (r *recStore) HasAt(ctx context.Context, h uint64) bool {
+	ok := r.Store.HasAt(ctx, h)
+	r.mu.Lock()
+	f := r.OnHasAt
+	r.OnHasAt = nil
+	r.mu.Unlock()
+	if f != nil {
+		f()
+	}
+	return ok
 }
 
 func (r *recStore) Head(ctx context.Context, opts ...header.HeadOption[H]) (H, error) {
